@@ -35,6 +35,16 @@ BUILT = {
             'from the live lens (the scaling map is a private convention); solves are generated where a one-pass '
             'solve is exact, the remaining class is a listed finding.',
             'DESIGN.md §4 C01'),
+    'C18': ('reference-model monitor, exhaustive over the bundled catalogue: MaterialFile/Material/AbbeMaterial vs an independent implementation of the refractiveindex.info formulas reading the YAML files',
+            'Exploration, exhaustive for the n/k part: all 2593 catalogue rows / 2519 data files are evaluated in both '
+            'tiers at 9 (quick) / 41 (thorough) wavelengths across their range incl. end points and compared with an '
+            'independent implementation of the nine dispersion formulas and the tabulated forms; scalar vs array; k '
+            'interpolation; exact-name lookups for 644 (quick) / all (thorough) rows x 4 query forms; Abbe number '
+            'definition; model glass over the Schott map. Held = no disagreement on any row.',
+            'Trusts vkit/oracles/dispersion.py (written from database/doc/Dispersion formulas.pdf) and PyYAML; rows '
+            'without exactly one n-relation are outside the statement and only counted; model-glass thresholds are 2x '
+            'the 99.9th percentile measured on the unchanged tree.',
+            'DESIGN.md §4 C18'),
 }
 
 NOT_YET = {}
